@@ -4,13 +4,17 @@ import MesaModel.Proofs.DevsHeap
 import MesaModel.Proofs.DevsLive
 import MesaModel.Proofs.DevsOrder
 import MesaModel.Proofs.DevsDoomed
+import MesaModel.Proofs.DevsShared
+import MesaModel.Proofs.DevsRaise
+import MesaModel.Proofs.DevsHistory
 /-!
 # C14 — the simulators run each live event once, in (time, priority, FIFO) order
 
 Property theorems only (helper lemmas: `Proofs/Devs.lean`, model: `Model/Devs.lean`).
 `Reachable s`: every state reachable from a fresh simulator of either class by any interleaving of
 scheduling / cancelling / reference-dropping commands (issued at top level or from inside executing
-events), `setup`, `run_until` / `run_for` with a horizon not before the clock, `run_next_event`.
+events), `setup`, `run_until` / `run_for` with a horizon not before the clock, `run_next_event`, callables that raise
+(the run call is cut short, the program catches the exception — `caught` — and goes on: aborted states are reachable states).
 Event ids are handed out in scheduling order, so "(time, priority, id)" is (time, priority, FIFO).
 -/
 namespace Mesa.Devs
@@ -103,10 +107,10 @@ theorem C14_clock_monotone {s : Sim} (h : Reachable s) :
     `≤ T` pending (including events scheduled by the events it executed), and executed only events with
     time `≤ T`. -/
 theorem C14_run_until_post {s s' : Sim} {f : Nat} {T : Int} (h : Reachable s)
-    (hr : runUntil f s T = some s') :
+    (hr : runUntil f s T = some s') (hn : s'.raised = none) :
     s'.now = T ∧ (∀ y ∈ s'.pending, y.cancelled = false → T < y.time) ∧
     ∃ new, s'.log = s.log ++ new ∧ ∀ x ∈ new, x.clock ≤ T :=
-  runUntil_post (reachable_inv h).1 hr
+  runUntil_post (reachable_inv h).1 hr hn
 
 /-- Scheduling is rejected exactly when the time lies before the clock (`Past`) or, otherwise, has the
     wrong unit (`Unit`); a rejected call — caught by the caller — leaves the simulator unchanged. -/
@@ -130,8 +134,8 @@ theorem C14_schedule_rejects_exactly (s : Sim) (t d : Int) (p a : Nat) :
   · unfold schedRel; split
     · simp [*]
     · split <;> simp_all
-  · rintro ⟨err, h⟩; simp [doCmd, h]
-  · rintro ⟨err, h⟩; simp [doCmd, h]
+  · rintro ⟨err, h⟩; unfold doCmd; split <;> simp [doCmd1, h]
+  · rintro ⟨err, h⟩; unfold doCmd; split <;> simp [doCmd1, h]
 
 /-- Looking ahead shows the live events in the order they would execute: `peak_ahead n` is exactly what
     `n` successive pops would hand out, and that sequence is strictly increasing in (time, priority, FIFO). -/
@@ -209,16 +213,21 @@ theorem C14_priority_order_generated :
 
 /-! ### at least once
 
-`Served k t s`: the user event with tag `k`, scheduled for time `t`, is waiting on the list (neither cancelled nor with a dead
-callable) or has been executed with the clock at exactly `t`.  `ProgsSpare k s`: no callable (event program or step body) cancels
-tag `k` or drops its callable; `ReachableSparing k s s'`: `s'` is reached from `s` by any further history whose top-level
-commands do not cancel / drop tag `k` either (scheduling, other cancellations, runs of any kind are all allowed). -/
+`Served k c i t s`: the user event with tag `k`, callable object `c` and event id `i`, scheduled for time `t`, is waiting on the list
+(neither cancelled nor with a dead callable) or has been executed — that very event: `LogEntry.user i k t` is in the log — with the
+clock at exactly `t`.  `ProgsSpare k c s`: no callable (event
+program or step body) cancels tag `k` or drops the callable `c`; `ReachableSparing k c s s'`: `s'` is reached from `s` by any
+further history whose top-level commands do not cancel `k` / drop `c` either (scheduling — also of `c` again —, cancellations of
+other events, *including events that share the callable `c`*, drops of other callables, runs of any kind are all allowed).
+For an ordinary scheduling call the callable is fresh and `c = k`; the id is the value of the id counter at the scheduling call.
+`ProgsSpare` is a syntactic condition over ALL programs of the table, also those that never run: sufficient, not necessary. -/
 
 /-- **At least once (absolute scheduling).**  An event that was accepted by `schedule_event_absolute` and that nobody cancels or
     drops stays served through every further history: it is never lost, and when it runs the clock is the time it was
     scheduled for. -/
 theorem C14_spared_event_is_served {s s₀ s' : Sim} {t : Int} {p a : Nat} (hs : schedAbs s t p a = .ok s₀)
-    (hps : ProgsSpare s.nextTag s) (hr : ReachableSparing s.nextTag s₀ s') : Served s.nextTag t s' := by
+    (hps : ProgsSpare s.nextTag s.nextTag s) (hr : ReachableSparing s.nextTag s.nextTag s₀ s') :
+    Served s.nextTag s.nextTag s.nextId t s' := by
   unfold schedAbs at hs
   split at hs
   · simp at hs
@@ -230,7 +239,8 @@ theorem C14_spared_event_is_served {s s₀ s' : Sim} {t : Int} {p a : Nat} (hs :
 
 /-- **At least once (relative scheduling, `schedule_event_now`, `schedule_event_next_tick`).** -/
 theorem C14_spared_event_is_served_rel {s s₀ s' : Sim} {d : Int} {p a : Nat} (hs : schedRel s d p a = .ok s₀)
-    (hps : ProgsSpare s.nextTag s) (hr : ReachableSparing s.nextTag s₀ s') : Served s.nextTag (s.now + d) s' := by
+    (hps : ProgsSpare s.nextTag s.nextTag s) (hr : ReachableSparing s.nextTag s.nextTag s₀ s') :
+    Served s.nextTag s.nextTag s.nextId (s.now + d) s' := by
   unfold schedRel at hs
   split at hs
   · simp at hs
@@ -241,24 +251,182 @@ theorem C14_spared_event_is_served_rel {s s₀ s' : Sim} {d : Int} {p a : Nat} (
       exact (served_stays (pushUser_serves s (s.now + d) p a) hps hr).1
 
 /-- **Every live event that is due is executed by `run_until`** — including events scheduled from inside other events, in
-    any reachable state, after any further history: after `run_until(T)` an uncancelled, undropped event scheduled for
-    `t ≤ T` is in the execution log, with the clock at `t`.  With `C14_never_twice`: exactly once. -/
+    any reachable state, after any further history: after a `run_until(T)` that returns normally, an uncancelled, undropped
+    event scheduled for `t ≤ T` is in the execution log — the very event the call created (id = the id counter at the call) —,
+    with the clock at `t`.  With `C14_never_twice`: exactly once. -/
 theorem C14_spared_due_event_executed {s s₀ s' s'' : Sim} {t T : Int} {p a f : Nat} (h : Reachable s)
-    (hs : schedAbs s t p a = .ok s₀) (hps : ProgsSpare s.nextTag s) (hr : ReachableSparing s.nextTag s₀ s')
-    (hT : s'.now ≤ T) (hrun : runUntil f s' T = some s'') (htT : t ≤ T) :
-    ∃ i, LogEntry.user i s.nextTag t ∈ s''.log := by
-  have h0 : Reachable s₀ := by
-    have : doCmd s (.schedAbs t p a) = s₀ := by simp [doCmd, hs]
-    rw [← this]
-    exact .cmd _ h
-  have h' : Reachable s' := reachableFrom_reachable h0 (reachableSparing_from hr)
+    (hs : schedAbs s t p a = .ok s₀) (hps : ProgsSpare s.nextTag s.nextTag s) (hr : ReachableSparing s.nextTag s.nextTag s₀ s')
+    (hT : s'.now ≤ T) (hrun : runUntil f s' T = some s'') (hn : s''.raised = none) (htT : t ≤ T) :
+    LogEntry.user s.nextId s.nextTag t ∈ s''.log := by
+  have hw' : WF s' := reachableFrom_wf (schedAbs_wf (reachable_inv h).1 hs) (reachableSparing_from hr)
   have hserved := C14_spared_event_is_served hs hps (.until hr hT hrun)
-  obtain ⟨_, hpost, _⟩ := runUntil_post (reachable_inv h').1 hrun
-  rcases hserved with ⟨e, he, _, _, h3, h4, _⟩ | hlog
+  obtain ⟨_, hpost, _⟩ := runUntil_post hw' hrun hn
+  rcases hserved with ⟨e, he, _, _, _, _, h3, h4, _⟩ | hlog
   · have := hpost e he h4
     omega
   · exact hlog
 
+/-- The same for relative scheduling (`schedule_event_relative`, `schedule_event_now`, `schedule_event_next_tick`). -/
+theorem C14_spared_due_event_executed_rel {s s₀ s' s'' : Sim} {d T : Int} {p a f : Nat} (h : Reachable s)
+    (hs : schedRel s d p a = .ok s₀) (hps : ProgsSpare s.nextTag s.nextTag s) (hr : ReachableSparing s.nextTag s.nextTag s₀ s')
+    (hT : s'.now ≤ T) (hrun : runUntil f s' T = some s'') (hn : s''.raised = none) (htT : s.now + d ≤ T) :
+    LogEntry.user s.nextId s.nextTag (s.now + d) ∈ s''.log := by
+  have hw' : WF s' := reachableFrom_wf (schedRel_wf (reachable_inv h).1 hs) (reachableSparing_from hr)
+  have hserved := C14_spared_event_is_served_rel hs hps (.until hr hT hrun)
+  obtain ⟨_, hpost, _⟩ := runUntil_post hw' hrun hn
+  rcases hserved with ⟨e, he, _, _, _, _, h3, h4, _⟩ | hlog
+  · have := hpost e he h4
+    omega
+  · exact hlog
+
+/-! ### shared callables
+
+The same callable object may be scheduled many times (`again c d p`: the program calls `schedule_event_relative` once more with
+the callable `c` it still holds — a bound method `self.act` re-scheduled again and again).  Events sharing a callable are
+independent of each other (each has its own handle: cancelling one leaves the others alone) except for the life of the callable:
+when the program drops its last strong reference to `c`, every one of them is dead. -/
+
+/-- **At least once, shared callable.**  A further event scheduled with a callable `c` the program still holds is never lost
+    as long as nobody cancels *this* event or drops `c` — cancelling any other event that shares `c` is allowed. -/
+theorem C14_shared_callable_event_is_served {s s₀ s' : Sim} {c : Nat} {d : Int} {p : Nat}
+    (hs : again s c d p = some (.ok s₀)) (hps : ProgsSpare s.nextTag c s) (hr : ReachableSparing s.nextTag c s₀ s') :
+    Served s.nextTag c s.nextId (s.now + d) s' := by
+  unfold again at hs
+  split at hs
+  · simp at hs
+  · rename_i a _
+    simp only [Option.some.injEq] at hs
+    unfold schedRel at hs
+    split at hs
+    · simp at hs
+    · split at hs
+      · simp at hs
+      · simp only [Except.ok.injEq] at hs
+        subst hs
+        exact (served_stays (pushUser_serves s (s.now + d) p a (some c)) hps hr).1
+
+/-- ... and `run_until(T)` executes it if it is due, although other events sharing its callable were cancelled. -/
+theorem C14_shared_due_event_executed {s s₀ s' s'' : Sim} {c : Nat} {d T : Int} {p f : Nat} (h : Reachable s)
+    (hs : again s c d p = some (.ok s₀)) (hps : ProgsSpare s.nextTag c s) (hr : ReachableSparing s.nextTag c s₀ s')
+    (hT : s'.now ≤ T) (hrun : runUntil f s' T = some s'') (hn : s''.raised = none) (htT : s.now + d ≤ T) :
+    LogEntry.user s.nextId s.nextTag (s.now + d) ∈ s''.log := by
+  have hw0 : WF s₀ := by
+    unfold again at hs
+    split at hs
+    · simp at hs
+    · simp only [Option.some.injEq] at hs
+      exact schedRel_wf (reachable_inv h).1 hs
+  have hw' : WF s' := reachableFrom_wf hw0 (reachableSparing_from hr)
+  have hserved := C14_shared_callable_event_is_served hs hps (.until hr hT hrun)
+  obtain ⟨_, hpost, _⟩ := runUntil_post hw' hrun hn
+  rcases hserved with ⟨e, he, _, _, _, _, h3, h4, _⟩ | hlog
+  · have := hpost e he h4
+    omega
+  · exact hlog
+
+/-- **Once a callable is collected, no event sharing it ever executes.**  After the program has dropped its last strong reference
+    to a callable `c` it created earlier, in every state of every further history: the program cannot schedule `c` again, every
+    pending event scheduled with `c` — however many there are — has a dead weak reference, and when such an event is popped
+    nothing runs (the log does not grow). -/
+theorem C14_collected_callable_never_runs {s s' : Sim} {c : Nat} (hc : c < s.nextTag) (hr : ReachableFrom (dropFn s c) s') :
+    s'.fns.lookup c = none ∧ (∀ d p, again s' c d p = none) ∧
+    (∀ e ∈ s'.pending, e.isStep = false → e.fn = c → e.dead = true) ∧
+    ∀ e rest, popLive s'.pending = some (e, rest) → e.isStep = false → e.fn = c →
+      (exec (popped s' e rest) e).log = s'.log := by
+  have hcol := collected_stays (dropFn_collects s hc) hr
+  refine ⟨hcol.unheld, fun d p => by simp [again, hcol.unheld], hcol.dead, ?_⟩
+  intro e rest hp hu hf
+  have hd := hcol.dead e (popLive_mem hp).1 hu hf
+  rw [exec_log]; unfold entryOf; rw [if_pos hd]; simp [popped]
+
+/-- **An event's weak reference is dead exactly when the program no longer holds its callable object** — in every reachable
+    state, for every pending user event (so events that share a callable are all alive or all dead); callable ids are tags that
+    have been handed out. -/
+theorem C14_weakref_dead_iff_callable_dropped {s : Sim} (h : Reachable s) :
+    (∀ x ∈ s.fns, x.1 < s.nextTag) ∧
+    (∀ e ∈ s.pending, e.isStep = false → e.fn < s.nextTag ∧ (e.dead = true ↔ s.fns.lookup e.fn = none)) ∧
+    ∀ e₁ ∈ s.pending, ∀ e₂ ∈ s.pending, e₁.isStep = false → e₂.isStep = false → e₁.fn = e₂.fn → e₁.dead = e₂.dead := by
+  have hi := reachable_fnInv h
+  refine ⟨hi.keys, hi.evs, ?_⟩
+  intro e₁ h₁ e₂ h₂ hu₁ hu₂ hf
+  have i₁ := (hi.evs e₁ h₁ hu₁).2
+  have i₂ := (hi.evs e₂ h₂ hu₂).2
+  rw [hf] at i₁
+  have hiff : e₁.dead = true ↔ e₂.dead = true := i₁.trans i₂.symm
+  cases hd₁ : e₁.dead <;> cases hd₂ : e₂.dead
+  · rfl
+  · rw [hd₁, hd₂] at hiff; exact absurd (hiff.mpr rfl) (by simp)
+  · rw [hd₁, hd₂] at hiff; exact absurd (hiff.mp rfl) (by simp)
+  · rfl
+
+/-- **Dropping a callable kills every pending event that shares it**: none of them is in the execution log of any state
+    reachable afterwards (`C14_collected_never_executes` for all sharers at once). -/
+theorem C14_drop_kills_every_sharer {s s' : Sim} (h : Reachable s) {c : Nat} {e : Ev} (he : e ∈ s.pending)
+    (hu : e.isStep = false) (hf : e.fn = c) (hr : ReachableFrom (dropFn s c) s') : e.id ∉ logIds s'.log := by
+  have ha0 : Acc (dropFn s c) := doCmd1_accH (reachable_inv h).2.1 (.drop c)
+  have hmem : { e with dead := true } ∈ (dropFn s c).pending := by
+    simp only [dropFn, List.mem_map]
+    exact ⟨e, he, by simp [hu, hf]⟩
+  exact doomed_not_logged (reachableFrom_acc ha0 hr) (doomed_stays (Or.inl ⟨_, hmem, rfl, rfl⟩) hr)
+
+
+/-! ### callables that raise
+
+A callable (or the step body) may raise (`raise x`): the rest of its program does not run, `run_until` / `run_for` /
+`run_next_event` do not return normally — the exception reaches the program with its kind (`Sim.raised = some x`), which catches it
+(`caught`) and goes on.  All states on the way are `Reachable`, so every invariant above (sorted queue, accounting, never twice,
+clock monotone, once cancelled / collected never executed, at-least-once over `ReachableSparing`, which has the `caught` step too)
+holds in aborted states and across any number of exceptions.  Post-conditions of a run that *returns normally* carry the hypothesis
+`s'.raised = none`; what a run that is cut short leaves is stated here. -/
+
+/-- **What `run_until(T)` leaves when a callable raises `x`.**  The exception comes from the last event the run executed: that
+    event was alive and due, its execution is the last log entry, logged at the clock the run stopped at — the raising event's
+    time, `≤ T` —, everything executed before it is logged before it; the raising program (the step body for a step event)
+    contains that `raise x` (the kind is preserved); the raising event is consumed (no longer on the list), and nothing on the
+    list lies before the clock. -/
+theorem C14_run_until_aborted {s s' : Sim} {f : Nat} {T : Int} {x : Exc} (h : Reachable s) (hT : s.now ≤ T)
+    (h0 : s.raised = none) (hr : runUntil f s T = some s') (hx : s'.raised = some x) :
+    ∃ pre ent, s'.log = s.log ++ pre ++ [ent] ∧ ent.clock = s'.now ∧ s'.now ≤ T ∧ (∀ y ∈ pre, y.clock ≤ T) ∧
+      ((ent.isStep = true ∧ Cmd.raise x ∈ s.stepProg) ∨ (ent.isStep = false ∧ ∃ a, Cmd.raise x ∈ s.prog a)) ∧
+      ent.id ∉ ids s'.pending ∧ ∀ e ∈ s'.pending, s'.now ≤ e.time := by
+  obtain ⟨pre, ent, hlog, hclk, hle, hpre, hprog⟩ := runUntil_aborted h0 hr hx
+  have h' : Reachable s' := .until h hT hr
+  refine ⟨pre, ent, hlog, hclk, hle, hpre, hprog, ?_, (reachable_inv h').1.future⟩
+  intro hmem
+  have hacc := C14_exactly_once_accounting h' ent.id
+  have h1 : 0 < (ids s'.pending).count ent.id := List.count_pos_iff.mpr hmem
+  have h2 : 0 < (logIds s'.log).count ent.id := by
+    apply List.count_pos_iff.mpr
+    rw [hlog]; simp [logIds]
+  split at hacc <;> omega
+
+/-- **A raising event is executed exactly once.**  Whatever the program does after the exception reached it — catch it, schedule,
+    cancel, run again to the same or a later horizon, meet further exceptions —, the event that raised is never run again: in
+    every later state it occurs in the execution log exactly once and not on the list. -/
+theorem C14_raising_event_never_rerun {s s' s'' : Sim} {f : Nat} {T : Int} {x : Exc} (h : Reachable s) (hT : s.now ≤ T)
+    (h0 : s.raised = none) (hr : runUntil f s T = some s') (hx : s'.raised = some x) (hfrom : ReachableFrom s' s'') :
+    ∃ ent, s'.log.getLast? = some ent ∧ (logIds s''.log).count ent.id = 1 ∧ ent.id ∉ ids s''.pending := by
+  obtain ⟨pre, ent, hlog, _⟩ := runUntil_aborted h0 hr hx
+  obtain ⟨new, hnew⟩ := reachableFrom_log_grows hfrom
+  have h'' : Reachable s'' := reachableFrom_reachable (.until h hT hr) hfrom
+  have hacc := C14_exactly_once_accounting h'' ent.id
+  have h2 : 0 < (logIds s''.log).count ent.id := by
+    apply List.count_pos_iff.mpr
+    rw [hnew, hlog]; simp [logIds]
+  refine ⟨ent, by rw [hlog]; simp, ?_, ?_⟩
+  · split at hacc <;> omega
+  · intro hmem
+    have h1 : 0 < (ids s''.pending).count ent.id := List.count_pos_iff.mpr hmem
+    split at hacc <;> omega
+
+/-- **Resuming after an exception.**  The program catches the exception and calls `run_until(T)` again; if that call returns
+    normally the clock is `T`, no live event with time `≤ T` is left — the events that were still due when the first call was cut
+    short have been executed — and only events with time `≤ T` ran. -/
+theorem C14_resume_after_exception {s s' s'' : Sim} {f f' : Nat} {T : Int} (h : Reachable s) (hT : s.now ≤ T)
+    (hr : runUntil f s T = some s') (hr2 : runUntil f' (caught s') T = some s'') (hn : s''.raised = none) :
+    s''.now = T ∧ (∀ y ∈ s''.pending, y.cancelled = false → T < y.time) ∧
+    ∃ new, s''.log = s'.log ++ new ∧ ∀ y ∈ new, y.clock ≤ T :=
+  C14_run_until_post (s := caught s') (.caught (.until h hT hr)) hr2 hn
 
 /-! ### order of execution with nested scheduling
 
@@ -279,6 +447,20 @@ theorem C14_execution_order {s s' : Sim} {f : Nat} {T : Int} (h : Reachable s) (
   have hw := (reachable_inv h).1
   exact ⟨tr, htr, runUntilT_log htr, runUntilT_ordered hw htr, runUntilT_born hw htr⟩
 
+/-- **Order of execution over a whole history** (`Proofs/DevsHistory.lean`).  `runHistT` runs any list of steps — top-level
+    commands, `run_until` / `run_for` / `run_next_event` calls (cut short by exceptions or not), catches — and returns the trace
+    of everything executed on the way (`run_next_event` contributes its one event).  The log grows by exactly the trace; of two
+    events executed anywhere in the history — in the same run call or in different ones — the earlier has the smaller
+    (time, priority, id) key unless the later one was scheduled only after the earlier one had been popped; and every executed
+    event precedes, in that sense, everything that is still pending at the end. -/
+theorem C14_execution_order_history {s s' : Sim} {f : Nat} {sts : List Step} {tr : List (Ev × Nat)} (h : Reachable s)
+    (hr : runHistT f s sts = some (s', tr)) :
+    s'.log = s.log ++ tr.flatMap (fun y => logOf y.1) ∧
+    tr.Pairwise (fun x y => x.1.lt y.1 = true ∨ x.2 ≤ y.1.id) ∧
+    ∀ x ∈ tr, ∀ z ∈ s'.pending, x.1.lt z = true ∨ x.2 ≤ z.id := by
+  obtain ⟨_, ht, hl⟩ := runHistT_spec (reachable_inv h).1 hr
+  exact ⟨hl, ht.ordered, fun x hx => (ht.ahead x hx).1⟩
+
 /-! non-vacuity: a concrete run with ties, nested scheduling and a cancellation -/
 section Example
 def exProg : Nat → List Cmd
@@ -293,9 +475,9 @@ example : ((runUntil 10 ex1 4096).map fun s => (s.now, s.log.map (·.id), s.gone
 example : schedRel ex1 (-1) 5 0 = .error .past := rfl
 /-- the hypotheses of the at-least-once theorems are met by the event with tag 2 of `ex1` (program 1 cancels tag 0 only);
     the event with tag 0 is cancelled from inside program 1 and is indeed not served -/
-example : ProgsSpare 2 ex0 := by
+example : ProgsSpare 2 2 ex0 := by
   refine ⟨fun a => ?_, by simp [Spares, ex0, init]⟩
-  show Spares 2 (exProg a)
+  show Spares 2 2 (exProg a)
   unfold Spares exProg
   split <;> simp
 example : ((runUntil 10 ex1 4096).map fun s => s.log) =
@@ -305,6 +487,54 @@ example : ((runUntil 10 ex1 4096).map fun s => s.log) =
     `C14_execution_order` is needed and is tight -/
 example : ((runUntilT 10 ex1 4096).map fun p => p.2.map fun y => (y.1.id, y.1.prio, y.2)) =
     some [(2, 1, 3), (1, 10, 3), (3, 5, 4)] := by decide
+/-- a history in pieces with a command in between: `run_next_event` (id 2), a new HIGH event for the same time scheduled at top
+    level (id 3: smaller key than id 1, but scheduled after id 2 was popped — it still runs before id 1), `run_until` -/
+example : ((runHistT 10 ex1 [.next, .cmd (.schedAbs 1024 1 0), .until 4096]).map fun p => p.2.map fun y => (y.1.id, y.1.prio, y.2)) =
+    some [(2, 1, 3), (3, 1, 4), (1, 10, 4), (4, 5, 5)] := by decide
+
+/-- shared callable: the callable of tag 0 is scheduled three times (tags 0, 1, 2 share `fn = 0`); tag 1 is cancelled — tags 0
+    and 2 still run (independence); a HIGH-priority event (tag 3, program 1) drops callable 0 at time 2048, just before tag 2
+    would run: tag 2 (id 2) is popped and discarded, and the program can no longer schedule the callable -/
+def shProg : Nat → List Cmd
+  | 1 => [.drop 0, .again 0 1024 5]
+  | _ => []
+def sh0 : Sim := init .devs shProg []
+def sh1 : Sim := doCmd (doCmd (doCmd (doCmd sh0 (.schedAbs 1024 5 0)) (.again 0 1024 5)) (.again 0 2048 5)) (.cancel 1)
+example : Reachable sh1 := .cmd _ (.cmd _ (.cmd _ (.cmd _ (.init _ _ _))))
+example : (sh1.pending.map fun e => (e.tag, e.fn, e.cancelled)) = [(0, 0, false), (1, 0, true), (2, 0, false)] := by decide
+example : ((runUntil 10 sh1 4096).map fun s => (s.log.map (·.id), s.gone)) = some ([0, 2], [1]) := by decide
+def sh2 : Sim := doCmd sh1 (.schedAbs 2048 1 1)
+example : ((runUntil 10 sh2 4096).map fun s => (s.log.map (·.id), s.gone, s.fns, s.nextId)) =
+    some ([0, 3], [1, 2], [(3, 1)], 4) := by decide
+example : again sh1 0 0 5 ≠ none ∧ again (dropFn sh1 0) 0 0 5 = none := by decide
+/-- the hypotheses of `C14_shared_callable_event_is_served` are met by tag 2 (callable 0) when program 1 cancels the two OTHER
+    events sharing callable 0 instead of dropping it: tag 2 runs all the same -/
+def shProgQ : Nat → List Cmd
+  | 1 => [.cancel 0, .cancel 1]
+  | _ => []
+def sq0 : Sim := init .devs shProgQ []
+def sq1 : Sim := doCmd (doCmd (doCmd (doCmd sq0 (.schedAbs 1024 5 0)) (.again 0 1024 5)) (.again 0 2048 5)) (.schedAbs 512 5 1)
+example : ProgsSpare 2 0 sq0 := by
+  refine ⟨fun a => ?_, by simp [Spares, sq0, init]⟩
+  show Spares 2 0 (shProgQ a)
+  unfold Spares shProgQ
+  split <;> simp
+example : ((runUntil 10 sq1 4096).map fun s => (s.log, s.gone)) = some ([.user 3 3 512, .user 2 2 2048], [0, 1]) := by decide
+
+/-- a callable that raises: program 1 schedules a follow-up, raises IndexError, and would schedule another one (which it never
+    does); `run_until(4096)` is cut short at 1024 with the exception pending, the raising event (id 0) consumed, the follow-up
+    (id 2) and the event of time 2048 (id 1) still on the list; the resumed call executes exactly those two -/
+def rsProg : Nat → List Cmd
+  | 1 => [.schedRel 512 5 0, .raise .index, .schedRel 0 5 0]
+  | _ => []
+def rs1 : Sim := doCmd (doCmd (init .devs rsProg []) (.schedAbs 1024 5 1)) (.schedAbs 2048 5 0)
+example : Reachable rs1 := .cmd _ (.cmd _ (.init _ _ _))
+example : ((runUntil 10 rs1 4096).map fun s => (s.raised, s.now, s.log.map (·.id), s.pending.map (·.id), s.nextId)) =
+    some (some .index, 1024, [0], [2, 1], 3) := by decide
+example : ((runUntil 10 rs1 4096).bind fun s => (runUntil 10 (caught s) 4096).map fun s => (s.raised, s.now, s.log.map (·.id), s.pending.map (·.id))) =
+    some (none, 4096, [0, 2, 1], []) := by decide
+example : ((resume 10 5 rs1 4096).map fun s => (s.now, s.log.map (·.id))) = some (4096, [0, 2, 1]) := by decide
+example : ((runUntilC 10 rs1 4096).map fun s => (s.now, s.log.map (·.id))) = some (4096, [0, 2, 1]) := by decide
 end Example
 
 end Mesa.Devs
